@@ -640,7 +640,7 @@ impl<B: AsRef<[usize]>> Iterator for OnesIterator<'_, B> {
         // find the next word with ones
         while self.word == 0 {
             self.word_idx += 1;
-            if self.word_idx == self.bits.as_ref().len() {
+            if self.word_idx >= self.bits.as_ref().len() {
                 return None;
             }
             self.word = unsafe { *self.bits.as_ref().get_unchecked(self.word_idx) };
@@ -692,7 +692,7 @@ impl<B: AsRef<[usize]>> Iterator for ZerosIterator<'_, B> {
         // find the next flipped word with zeros
         while self.word == 0 {
             self.word_idx += 1;
-            if self.word_idx == self.bits.as_ref().len() {
+            if self.word_idx >= self.bits.as_ref().len() {
                 return None;
             }
             self.word = unsafe { !*self.bits.as_ref().get_unchecked(self.word_idx) };
